@@ -1,0 +1,35 @@
+#ifndef WENCRY_VERIF_HOOKS_H
+#define WENCRY_VERIF_HOOKS_H
+/*
+Verification hooks. Without -DWENCRY_VERIF every WENCRY_VERIF_POINT expands to nothing.
+With it, each point calls wencry_verif_point(kind, index, aux) if the (weak) symbol is defined
+by the program the objects are linked into; otherwise it does nothing.
+The points mark the places where a thread touches chunk-buffer state without holding a lock.
+*/
+#ifdef WENCRY_VERIF
+extern "C" void wencry_verif_point(int kind, long index, long aux) __attribute__((weak));
+#define WENCRY_VERIF_POINT(kind, index, aux)                   \
+  do                                                           \
+  {                                                            \
+    if (wencry_verif_point)                                    \
+      wencry_verif_point((kind), (long)(index), (long)(aux)); \
+  } while (0)
+enum
+{
+  WV_W_GET = 1,           // worker about to take a block from buffer index (aux: call site)
+  WV_W_STATE = 2,         // worker about to read state of buffer index without the lock
+  WV_IO_STATE = 3,        // I/O thread about to read state of buffer index without the lock (aux: site)
+  WV_IO_EXPORT_BEGIN = 4, // I/O thread about to flush buffer index
+  WV_IO_EXPORT_END = 5,
+  WV_IO_LOAD_BEGIN = 6,   // I/O thread about to refill buffer index
+  WV_IO_LOAD_END = 7,     // aux: load state returned
+  WV_BUF_LOAD_STEP = 8,   // inside iobuffer::load_buffer, index = (long)this, aux = step
+  WV_BUF_EXPORT_STEP = 9  // inside iobuffer::export_buffer, index = (long)this
+};
+#else
+#define WENCRY_VERIF_POINT(kind, index, aux) \
+  do                                         \
+  {                                          \
+  } while (0)
+#endif
+#endif
